@@ -13,7 +13,6 @@ Infix "+r" := (radd Op) (at level 50, left associativity).
 Infix "*r" := (rmul Op) (at level 40, left associativity).
 Notation sumZ := (sumZ Op).
 Notation two := (r1 Op +r r1 Op).
-Hypothesis cancel2 : forall a b:R, two *r a = two *r b -> a = b.
 
 (* inner product of slice (n,c) over an h x w window *)
 Definition dot2 (h w:Z) (A B:ten) (n c:Z) : R := sumZ 0 h (fun i => sumZ 0 w (fun j => tf A n c i j *r tf B n c i j)).
@@ -41,6 +40,27 @@ Proof.
   rewrite (sum_even_odd Op Rth w (fun j => F (2*i) j)) by lia. rewrite (sum_even_odd Op Rth w (fun j => F (2*i+1) j)) by lia.
   rewrite <- !sumZ_add by exact Rth. apply sumZ_ext. intros j Hj. ring.
 Qed.
+
+Variable s : R.
+(* q2c and c2q are adjoint as maps between an even-sized tensor and four half-sized planes *)
+Lemma quad_adj (y w1r w1i w2r w2i:ten) n c h w : 0 <= h -> 0 <= w ->
+  let '((z1r, z1i), (z2r, z2i)) := q2c Op s y in
+  dot2 (2*h) (2*w) y (c2q Op s w1r w1i w2r w2i) n c
+  = dot2 h w z1r w1r n c +r dot2 h w z1i w1i n c +r dot2 h w z2r w2r n c +r dot2 h w z2i w2i n c.
+Proof.
+  intros Hh Hw.
+  assert (P: forall i j, let '((z1r, z1i), (z2r, z2i)) := q2c Op s y in
+     tf z1r n c i j *r tf w1r n c i j +r tf z1i n c i j *r tf w1i n c i j +r tf z2r n c i j *r tf w2r n c i j +r tf z2i n c i j *r tf w2i n c i j
+     = tf y n c (2*i) (2*j) *r tf (c2q Op s w1r w1i w2r w2i) n c (2*i) (2*j) +r tf y n c (2*i) (2*j+1) *r tf (c2q Op s w1r w1i w2r w2i) n c (2*i) (2*j+1)
+       +r tf y n c (2*i+1) (2*j) *r tf (c2q Op s w1r w1i w2r w2i) n c (2*i+1) (2*j) +r tf y n c (2*i+1) (2*j+1) *r tf (c2q Op s w1r w1i w2r w2i) n c (2*i+1) (2*j+1)).
+  { intros i j. exact (q2c_c2q_adjoint Op Rth s y w1r w1i w2r w2i n c i j). }
+  destruct (q2c Op s y) as ((z1r, z1i), (z2r, z2i)).
+  unfold dot2. rewrite (sum_quads h w (fun i j => tf y n c i j *r tf (c2q Op s w1r w1i w2r w2i) n c i j)) by lia.
+  rewrite <- !sumZ_add by exact Rth. apply sumZ_ext. intros i Hi. rewrite <- !sumZ_add by exact Rth. apply sumZ_ext. intros j Hj.
+  symmetry. apply P.
+Qed.
+
+Hypothesis cancel2 : forall a b:R, two *r a = two *r b -> a = b.
 
 (* ---- stage adjoints in inner-product form ---- *)
 Section Stage.
@@ -100,24 +120,6 @@ Proof.
 Qed.
 End Stage.
 
-Variable s : R.
-(* q2c and c2q are adjoint as maps between an even-sized tensor and four half-sized planes *)
-Lemma quad_adj (y w1r w1i w2r w2i:ten) n c h w : 0 <= h -> 0 <= w ->
-  let '((z1r, z1i), (z2r, z2i)) := q2c Op s y in
-  dot2 (2*h) (2*w) y (c2q Op s w1r w1i w2r w2i) n c
-  = dot2 h w z1r w1r n c +r dot2 h w z1i w1i n c +r dot2 h w z2r w2r n c +r dot2 h w z2i w2i n c.
-Proof.
-  intros Hh Hw.
-  assert (P: forall i j, let '((z1r, z1i), (z2r, z2i)) := q2c Op s y in
-     tf z1r n c i j *r tf w1r n c i j +r tf z1i n c i j *r tf w1i n c i j +r tf z2r n c i j *r tf w2r n c i j +r tf z2i n c i j *r tf w2i n c i j
-     = tf y n c (2*i) (2*j) *r tf (c2q Op s w1r w1i w2r w2i) n c (2*i) (2*j) +r tf y n c (2*i) (2*j+1) *r tf (c2q Op s w1r w1i w2r w2i) n c (2*i) (2*j+1)
-       +r tf y n c (2*i+1) (2*j) *r tf (c2q Op s w1r w1i w2r w2i) n c (2*i+1) (2*j) +r tf y n c (2*i+1) (2*j+1) *r tf (c2q Op s w1r w1i w2r w2i) n c (2*i+1) (2*j+1)).
-  { intros i j. exact (q2c_c2q_adjoint Op Rth s y w1r w1i w2r w2i n c i j). }
-  destruct (q2c Op s y) as ((z1r, z1i), (z2r, z2i)).
-  unfold dot2. rewrite (sum_quads h w (fun i j => tf y n c i j *r tf (c2q Op s w1r w1i w2r w2i) n c i j)) by lia.
-  rewrite <- !sumZ_add by exact Rth. apply sumZ_ext. intros i Hi. rewrite <- !sumZ_add by exact Rth. apply sumZ_ext. intros j Hj.
-  symmetry. apply P.
-Qed.
 
 Variables (L:Z) (H0A H0B H1A H1B:Z->R).
 Hypothesis HL : 2 <= L /\ L mod 2 = 0.
